@@ -12,6 +12,7 @@ EXPLANATION = (
     "token pattern matches the empty string; (STREAM) string_to_tokens passes on every spanned token of the logos lexer in "
     "order (spanned -> map -> collect, no filter / skip / take / rev / sort); (TABLE) the documented literal tokens are "
     "declared with #[token] and the variable ones with the documented patterns."
+    " (TABLE ascii-classes-only) no token pattern uses a Unicode-wide class; (UNIT Span.line_end/col_end) a token's end position is computed after the newlines inside it were counted."
 )
 UNDECIDED = "longest-match and tiling themselves (trusted to the logos crate's matching semantics)."
 
